@@ -59,8 +59,39 @@ deriving Repr, Inhabited
 
 def q (s : Str) : Str := '"' :: s ++ ['"']
 
-/-- `"name": "check_str"` -/
-def ruleText (d : GenDefault) : Str := q d.name ++ ':' :: ' ' :: q d.checkStr
+/-! ### `_format_check_str`: a plain check string is double quoted as it is; one that contains a double quote, a
+backslash or a control character goes through `json.dumps` (`ensure_ascii`: everything outside `' '..'~'` is
+escaped too) -/
+
+def hexDigit (n : Nat) : Char :=
+  match n % 16 with
+  | 0 => '0' | 1 => '1' | 2 => '2' | 3 => '3' | 4 => '4' | 5 => '5' | 6 => '6' | 7 => '7'
+  | 8 => '8' | 9 => '9' | 10 => 'a' | 11 => 'b' | 12 => 'c' | 13 => 'd' | 14 => 'e' | _ => 'f'
+
+/-- `\uXXXX` -/
+def u4 (n : Nat) : Str :=
+  ['\\', 'u', hexDigit (n / 4096), hexDigit (n / 256), hexDigit (n / 16), hexDigit n]
+
+/-- what `json.dumps` writes for one character of a string (`ESCAPE_ASCII`) -/
+def jsonEscChar (c : Char) : Str :=
+  if c = '"' then ['\\', '"']
+  else if c = '\\' then ['\\', '\\']
+  else if c = '\n' then ['\\', 'n']
+  else if c = '\r' then ['\\', 'r']
+  else if c = '\t' then ['\\', 't']
+  else if c = '\x08' then ['\\', 'b']
+  else if c = '\x0c' then ['\\', 'f']
+  else if 32 ≤ c.toNat ∧ c.toNat ≤ 126 then [c]
+  else if c.toNat < 65536 then u4 c.toNat
+  else u4 (55296 + (c.toNat - 65536) / 1024) ++ u4 (56320 + (c.toNat - 65536) % 1024)   -- surrogate pair
+
+def needsEscape (s : Str) : Bool := s.any fun c => c = '"' || c = '\\' || c.toNat < 32
+
+def formatCheckStr (s : Str) : Str :=
+  if needsEscape s then '"' :: s.flatMap jsonEscChar ++ ['"'] else q s
+
+/-- `"name": <formatted check_str>` -/
+def ruleText (d : GenDefault) : Str := q d.name ++ ':' :: ' ' :: formatCheckStr d.checkStr
 
 def opLines (d : GenDefault) : List Str :=
   match d.operations with
